@@ -68,7 +68,8 @@ impl ClosedStreamIndex {
         }
 
         // File is positioned after magic bytes
-        let (mphf, _, records_offset, bloom) = load_index_from_file(&mut file)?;
+        let (mphf, n, records_offset, bloom) = load_index_from_file(&mut file)?;
+        validate_len(&file, n, records_offset)?;
 
         Ok(ClosedStreamIndex {
             id,
@@ -190,6 +191,30 @@ impl ClosedStreamIndex {
         self.get_key(stream_id)
             .and_then(|key| key.map(|key| self.get_from_key(key)).transpose())
     }
+}
+
+/// The index is flushed in the background without a completion marker: a crash can leave a
+/// prefix of the file. A complete file holds all n records and the values each of them points to.
+fn validate_len(file: &File, n: u64, records_offset: u64) -> Result<(), StreamIndexError> {
+    let file_len = file.metadata()?.len();
+    let records_len = n
+        .checked_mul(RECORD_SIZE as u64)
+        .filter(|len| records_offset.saturating_add(*len) <= file_len)
+        .ok_or(StreamIndexError::CorruptLen)?;
+
+    let mut records = vec![0u8; records_len as usize];
+    file.read_exact_at(&mut records, records_offset)?;
+    for record in records.chunks_exact(RECORD_SIZE) {
+        // Stream ID, partition key, version min, version max, then offset and len of the values
+        let pos = RECORD_SIZE - 12;
+        let offset = u64::from_le_bytes(record[pos..pos + 8].try_into().unwrap());
+        let len = u32::from_le_bytes(record[pos + 8..pos + 12].try_into().unwrap()) as u64;
+        if offset.saturating_add(len * 8) > file_len {
+            return Err(StreamIndexError::CorruptLen);
+        }
+    }
+
+    Ok(())
 }
 
 #[allow(clippy::type_complexity)]
